@@ -6,6 +6,16 @@ HERE = os.path.dirname(os.path.abspath(__file__))
 
 # id -> (level, technique, text, note)   (only implemented checks are listed; the rest go to not_applicable)
 CHECKS = {
+    "C06": ("model_checking",
+            "deviation-bounded exhaustive exploration of encryption configurations (17 handler variants x <=2/<=3 deviations of passwords, permissions, ID, flags, object ids, lengths, spellings), documents produced by an independent encryptor and read with the real library under correct and wrong passwords",
+            "Each configuration is materialised as a file by an encryptor written from the specification (validated against 10 third-party fixtures), opened with user and owner password (all strings, streams, metadata, compressed strings and the encryption dictionary's own strings compared with plaintext) and with wrong passwords (must be InvalidPassword).",
+            "Trusted: harness encryptor + md5/sha2/aes/cbc crates. Public-key handlers, /StrF != /StmF, named crypt filters outside the property. Bound on simultaneous deviations.",
+            "§5 C06"),
+    "C17": ("model_checking",
+            "exhaustive enumeration of prefix lengths 1..1019 x filler kinds (and all byte values at 4 lengths) over generated and corpus files; differential comparison of a full read-everything walk with the unprefixed file",
+            "For six generated files every prefix length and 8 fillers are enumerated (and all 256 byte values at 4 lengths); corpus files at 14 boundary lengths (quick) / every length (thorough). Each prefixed file is walked completely (objects, stream data, pages, fonts, trees, trailer, recovery scan) and compared observation by observation with the walk of the unprefixed file.",
+            "Trusted: the walker's observation digest. Prefixes containing the header marker are excluded by the property.",
+            "§5 C17"),
     "C07": ("model_checking",
             "exhaustive enumeration of all ordered page trees up to 7/8 nodes with bounded deviations of inheritable-attribute placement, generated as real files and checked against a DFS/nearest-ancestor reference model, cached and uncached",
             "Every rooted ordered tree up to the node bound (pages and empty Pages nodes anywhere) is generated exactly once with accurate counts and parent links and scrambled object numbers; attribute placement is explored to 2 (quick) / 3 (thorough) simultaneous deviations from 'root only'; chains to depth 12 with side pages; every index 0..count+2 is requested.",
